@@ -1464,8 +1464,29 @@ impl KyroDbService for KyroDBServiceImpl {
 
         // Acquire lock per-operation to prevent deadlock
         // Holding write lock across stream.message().await causes deadlock
-        while let Some(req) = stream.message().await? {
-            self.enforce_rate_limit(tenant.as_ref())?;
+        loop {
+            // Items received so far are already applied (and durable). A decode / transport /
+            // rate-limit error in the middle of the stream therefore must not become the
+            // call's status - the client would be told "refused" with documents inserted and
+            // no counts. Report it as a failed item and stop reading instead.
+            let req = match stream.message().await {
+                Ok(Some(req)) => req,
+                Ok(None) => break,
+                Err(status) => {
+                    total_failed += 1;
+                    last_error = format!(
+                        "stream error after {} items: {}",
+                        batch_count,
+                        status.message()
+                    );
+                    break;
+                }
+            };
+            if let Err(status) = self.enforce_rate_limit(tenant.as_ref()) {
+                total_failed += 1;
+                last_error = status.message().to_string();
+                break;
+            }
             batch_count += 1;
 
             // Check batch size limit to prevent memory exhaustion
